@@ -135,6 +135,14 @@ func runOne(j job) (res result, trace string) {
 		}
 		return "ok"
 	})
+	vm.Set("reenterz", func(src string) string {
+		// a host function that ignores whatever its nested run returns, an InterruptedError included: the interrupt is still
+		// pending for the script that called it (only the outermost exit clears the flag)
+		if _, err := vm.RunString(src); err != nil {
+			return "err"
+		}
+		return "ok"
+	})
 	vm.Set("expect", func(call goja.FunctionCall) goja.Value {
 		// a scenario's own assertion about the frame it runs in
 		if !call.Argument(0).ToBoolean() {
